@@ -55,6 +55,35 @@ func (u *Unit) Run() {
 	u.entry = st.clone()
 	ct := u.contract
 	env := u.envFor(nil, st, u.entry, nil)
+	// interface refinement: the unit may assume only what the interface method's
+	// contract requires, and must establish what it ensures
+	var ic *Contract
+	var ienv func(st, old *State, results []Val) *Env
+	if key := ct.Flags["implements"]; key != "" {
+		ic = u.prog.specs.Contracts[qualify(key, ct.PkgPath)]
+		if ic == nil {
+			ic = u.prog.specs.Contracts[key]
+		}
+		if ic == nil {
+			unsupp("implements=%s: no such interface contract", key)
+		}
+		ienv = func(s, old *State, results []Val) *Env {
+			vars, _ := u.bindArgsNamed(fn.Signature, fr.params, true, ic.ParamNames)
+			e := &Env{u: u, st: s, old: old, vars: vars, pkgPath: ic.PkgPath, fvOverride: map[string]freeVarInfo{}, results: results}
+			rs := fn.Signature.Results()
+			for i := 0; i < rs.Len(); i++ {
+				e.resultTypes = append(e.resultTypes, rs.At(i).Type())
+			}
+			return e
+		}
+		ie := ienv(st, u.entry, nil)
+		for _, r := range ic.Requires {
+			u.assume(st, u.evalBoolF(ie, st, r.Expr))
+		}
+		for i, r := range ct.Requires {
+			u.addOblNamed(st, "refines", fmt.Sprintf("refines/pre#%d", i+1), "own precondition follows from the interface contract: "+r.Src, fn.Pos(), u.evalBoolF(env, st, r.Expr))
+		}
+	}
 	for _, r := range ct.Requires {
 		u.assume(st, u.evalBoolF(env, st, r.Expr))
 	}
@@ -67,8 +96,18 @@ func (u *Unit) Run() {
 		}
 		u.frames = []*FrameSet{fs}
 	}
+	if ic != nil && ic.HasModifies && !ic.ModifiesAll {
+		ifs := &FrameSet{since: st.now, why: "modifies clause of interface method " + shortName(ic.Full)}
+		ie := ienv(st, u.entry, nil)
+		for _, m := range ic.Modifies {
+			ifs.items = append(ifs.items, u.evalLoc(ie, m.Expr, m.Src)...)
+		}
+		u.frames = append(u.frames, ifs)
+	}
 	exit, results := u.execBody(fr, st)
 	penv := u.envFor(nil, exit, u.entry, results)
+	penv.fr = fr
+	penv.paramsAtEntry = true
 	if results == nil {
 		penv.results = []Val{}
 	}
@@ -78,6 +117,16 @@ func (u *Unit) Run() {
 			name = "post#" + e.Label
 		}
 		u.addOblNamed(exit, "post", name, "postcondition: "+e.Src, fn.Pos(), u.evalBoolF(penv, exit, e.Expr))
+	}
+	if ic != nil {
+		ie := ienv(exit, u.entry, penv.results)
+		for i, e := range ic.Ensures {
+			name := fmt.Sprintf("post#iface.%d", i+1)
+			if e.Label != "" {
+				name = "post#iface." + e.Label
+			}
+			u.addOblNamed(exit, "post", name, "postcondition of the interface method: "+e.Src, fn.Pos(), u.evalBoolF(ie, exit, e.Expr))
+		}
 	}
 }
 
